@@ -13,6 +13,7 @@ from .. import refx690 as R
 from .. import refconstraint as RC
 from .. import build as B
 from .. import harness as H
+from .. import monitors as M
 from . import common as C
 
 ID = 'C10'
@@ -256,9 +257,17 @@ def check_input(res, T, cons, schema, data, origin, dname, feats0):
     feats = set(feats0) | {'input:' + origin, 'decoder:' + dname}
     res.see('inputs:' + origin)
     try:
-        d, rest = dec.decode(data, asn1Spec=schema)
+        # (the CPU-time guard only keeps a shard from being held up for hours by one input - a REAL with an
+        # astronomically large exponent printed inside a constraint error message did that before fix 8bc454b;
+        # deciding that is C08's business, here the input is merely counted)
+        with M.cpu_guard(30.0):
+            d, rest = dec.decode(data, asn1Spec=schema)
     except error.PyAsn1Error:
         res.see('rejected:' + origin)
+        res.evaluations += 1
+        return
+    except M.CpuBudgetExceeded:
+        res.see('decoder-burnt-more-than-30-cpu-seconds')
         res.evaluations += 1
         return
     except Exception as ex:
